@@ -227,14 +227,11 @@ Proof.
   assert (Hwf4 : wf g4).
   { destruct md2 as [m|]; [|injection H4 as <- _; exact Hwf3].
     apply bind_ok in H4 as [n3 [Hn3 H4]]. apply bind_ok in H4 as [ex [Hex H4]].
+    apply bind_ok in H4 as [all [Hall H4]]. apply bind_ok in H4 as [rs [Hrs H4]].
     revert H4. apply (fold_res_pair_inv wf).
-    - intros acc extra ga na Hacc HF. apply bind_ok in HF as [[gb nb] [-> HF]]. cbv beta iota in HF.
-      specialize (Hacc gb nb eq_refl). apply bind_ok in HF as [rs [Hrs HF]].
-      revert HF. apply (fold_res_pair_inv wf).
-      + intros acc2 r gc nc Hacc2 HF2. apply bind_ok in HF2 as [[gd nd] [-> HF2]]. cbv beta iota in HF2.
-        specialize (Hacc2 gd nd eq_refl). apply bind_ok in HF2 as [[ge ne] [Hrec HF2]]. cbv beta iota in HF2.
-        injection HF2 as <- _. eapply IH; [exact Hacc2|exact Hrec].
-      + intros g0 b0 [= <- _]. exact Hacc.
+    - intros acc2 r gc nc Hacc2 HF2. apply bind_ok in HF2 as [[gd nd] [-> HF2]]. cbv beta iota in HF2.
+      specialize (Hacc2 gd nd eq_refl). apply bind_ok in HF2 as [[ge ne] [Hrec HF2]]. cbv beta iota in HF2.
+      injection HF2 as <- _. eapply IH; [exact Hacc2|exact Hrec].
     - intros g0 b0 [= <- _]. eapply setn_wf; [exact Hwf3|exact Hn3|reflexivity]. }
   apply bind_ok in H as [g5 [H5 H]].
   assert (Hwf5 : wf g5) by (eapply discard_wf; eassumption).
